@@ -115,6 +115,12 @@ func VerifC11Lists(p HostSelectionPolicy) [][]*HostInfo {
 			out[i] = r.hosts[i].get()
 		}
 		return out
+	case *verifTieredRR:
+		out := make([][]*HostInfo, len(r.hosts))
+		for i := range r.hosts {
+			out[i] = r.hosts[i].get()
+		}
+		return out
 	}
 	return nil
 }
@@ -126,6 +132,8 @@ func verifC11Counter(p HostSelectionPolicy) *uint64 {
 	case *dcAwareRR:
 		return &r.lastUsedHostIdx
 	case *rackAwareRR:
+		return &r.lastUsedHostIdx
+	case *verifTieredRR:
 		return &r.lastUsedHostIdx
 	}
 	return nil
@@ -181,4 +189,60 @@ func VerifC11SetReplicas(p HostSelectionPolicy, keyspace string, hosts []*HostIn
 	meta.replicas = replicas
 	t.metadata.Store(meta)
 	return true
+}
+
+// verifTieredRR is rackAwareRR generalised to any number of tiers: a HostTierer assembled from the
+// package's own parts (one cowHostList per tier, roundRobbin over all of them), so that the
+// tier-generic code of roundRobbin and of tokenAwareHostPolicy.Pick can be exercised with more
+// than three tiers.
+type verifTieredRR struct {
+	lastUsedHostIdx uint64
+	maxTier         uint
+	tier            func(*HostInfo) uint
+	hosts           []cowHostList
+}
+
+// VerifC11TieredPolicy returns a policy with maxTier+1 tiers; tier(host) is clamped to maxTier.
+func VerifC11TieredPolicy(maxTier uint, tier func(*HostInfo) uint) HostSelectionPolicy {
+	return &verifTieredRR{maxTier: maxTier, tier: tier, hosts: make([]cowHostList, maxTier+1)}
+}
+
+func (d *verifTieredRR) Init(*Session)                       {}
+func (d *verifTieredRR) KeyspaceChanged(KeyspaceUpdateEvent) {}
+func (d *verifTieredRR) SetPartitioner(p string)             {}
+func (d *verifTieredRR) MaxHostTier() uint                   { return d.maxTier }
+func (d *verifTieredRR) HostTier(host *HostInfo) uint {
+	if t := d.tier(host); t < d.maxTier {
+		return t
+	}
+	return d.maxTier
+}
+func (d *verifTieredRR) IsLocal(host *HostInfo) bool { return d.HostTier(host) == 0 }
+func (d *verifTieredRR) AddHost(host *HostInfo)      { d.hosts[d.HostTier(host)].add(host) }
+func (d *verifTieredRR) RemoveHost(host *HostInfo) {
+	d.hosts[d.HostTier(host)].remove(host.ConnectAddress())
+}
+func (d *verifTieredRR) HostUp(host *HostInfo)   { d.AddHost(host) }
+func (d *verifTieredRR) HostDown(host *HostInfo) { d.RemoveHost(host) }
+func (d *verifTieredRR) Pick(q ExecutableQuery) NextHost {
+	nextStartOffset := atomic.AddUint64(&d.lastUsedHostIdx, 1)
+	lists := make([][]*HostInfo, len(d.hosts))
+	for i := range d.hosts {
+		lists[i] = d.hosts[i].get()
+	}
+	return roundRobbin(int(nextStartOffset), lists...)
+}
+
+// VerifC11Token returns the token the installed partitioner computes for a routing key (its
+// decimal / raw string form), "" when no ring is installed.
+func VerifC11Token(p HostSelectionPolicy, key []byte) string {
+	t, ok := p.(*tokenAwareHostPolicy)
+	if !ok {
+		return ""
+	}
+	meta := t.getMetadataReadOnly()
+	if meta == nil || meta.tokenRing == nil {
+		return ""
+	}
+	return meta.tokenRing.partitioner.Hash(key).String()
 }
